@@ -50,6 +50,36 @@ def uncompared_noncache_fields(chk):
     return out
 
 
+def order_insensitive_rendered_fields(chk):
+    """(class, field) where the field is a compared dataclass field of a set type whose equality/hash ignore element order
+    (a `collections.abc.Set` subclass without its own `__eq__`) while the class's `__str__` iterates that field: two objects that
+    compare and hash equal then render their elements in different orders — text outside the cache key.  Read from the source."""
+    unordered = set()
+    for rel, tree in iter_sources(chk):
+        for n in ast.walk(tree):
+            if isinstance(n, ast.ClassDef) and any("Set" in ast.unparse(b) for b in n.bases):
+                own = {x.name for x in n.body if isinstance(x, ast.FunctionDef)}
+                if "__eq__" not in own and "__iter__" in own:
+                    unordered.add(n.name)
+    out = []
+    for rel, tree in iter_sources(chk):
+        if not rel.startswith("markers/"):
+            continue
+        for n in ast.walk(tree):
+            if not isinstance(n, ast.ClassDef):
+                continue
+            flds = [x.target.id for x in n.body if isinstance(x, ast.AnnAssign) and isinstance(x.target, ast.Name)
+                    and any(u in ast.unparse(x.annotation) for u in unordered)
+                    and not (isinstance(x.value, ast.Call) and any(k.arg == "compare" and isinstance(k.value, ast.Constant) and k.value.value is False
+                                                                   for k in x.value.keywords))]
+            for x in n.body:
+                if isinstance(x, ast.FunctionDef) and x.name == "__str__":
+                    for f in flds:
+                        if any(isinstance(a, ast.Attribute) and a.attr == f and isinstance(a.value, ast.Name) and a.value.id == "self" for a in ast.walk(x)):
+                            out.append((n.name, f))
+    return sorted(set(out))
+
+
 def seeded_cache_fields(chk):
     """R10.7: a pure-cache field that is outside __eq__/__hash__ (MarkerExpression._specifier) may be *seeded* at construction only
     with the value the lazy getter would compute.  The only site where that is established is the bridge `from_specifier(name,
@@ -211,6 +241,7 @@ def run(chk):
     chk.rule("R10.5", "no module-level mutable container is written at call time (hand-rolled caches)", min_instances=1)
     chk.rule("R10.6", "values obtained from memoised sources are never mutated in place", min_instances=1)
     bad_fields = uncompared_noncache_fields(chk)
+    order_fields = order_insensitive_rendered_fields(chk)
     chk.require(bad_fields or True, "")
     inventory = []
     stores = []
@@ -347,6 +378,18 @@ def run(chk):
                      f"without a converse its meaning, then depend on history)")
         elif not reads:
             chk.ok("R10.2", key=(mod, q))
+        # second reason, independent of the first: element order of set-valued compared fields is outside the key but rendered
+        general = [p.arg for p in params if p.annotation is not None and marker_like(p.annotation)
+                   and not ast.unparse(p.annotation).strip("'\"").startswith(("type[", "t.Type[", "Type["))
+                   and not any(ast.unparse(p.annotation).strip("'\"").endswith(c) for c in ("MarkerExpression",))]
+        if params and params[0].arg == "self" and params[0].annotation is None and any(owner == c for c, _ in order_fields):
+            general.append("self")
+        if leaking and order_fields and general:
+            fld = ", ".join(f"{c}.{f}" for c, f in order_fields)
+            chk.fail("R10.2", f"{mod}:{q}:returns-parameter-object:set-element-order",
+                     f"memoised {q} can return or embed its marker argument(s) ({', '.join(general)}) — e.g. `{norm(ast.unparse(leaking[0]))}`; "
+                     f"equality and hash of {fld} ignore element order while __str__ renders in that order, so an equal-keyed later call "
+                     f"receives the earlier object and its rendered text depends on history")
     # R10.3
     for mod, q, fn, n, a in stores:
         chk.instance("R10.3")
@@ -389,7 +432,8 @@ def run(chk):
     seeded_cache_fields(chk)
     chk.exhaustive = True
     chk.analysed = {"caches": [f"{m}:{q} ({k})" for m, q, f, k in inventory], "attribute_store_sites": len(stores),
-                    "fields_outside_key": [f"{c}.{f}" for c, f in bad_fields]}
+                    "fields_outside_key": [f"{c}.{f}" for c, f in bad_fields],
+                    "order_outside_key": [f"{c}.{f}" for c, f in order_fields]}
     chk.sample({"cache": "dep_logic.markers.single:_merge_single_markers", "key": "(marker1, marker2, merge_class) by __eq__/__hash__"})
     chk.extra["rule_text"] = "one obligation per memoised function (R10.2/R10.4), per attribute-store site (R10.3), per cache (R10.1)"
     chk.trusted += ["functools.lru_cache keys arguments by __hash__/__eq__"]
